@@ -230,6 +230,35 @@ fn workload(m: &mut Mon) {
     if !m.is_light() {
         m.mark_exhaustive("every (accumulator, a, b) length combination in 0..=10 ^3 for addmul (contents sampled)");
     }
+    // ---- addmul: memory shapes. One case for every combination of accumulator length 0..=3, number of low zero
+    // limbs of either operand 0..=3 and a zero high limb or not - in particular operands whose low zero limbs
+    // together exceed the accumulator (the window is exhausted before the first product limb). Values are judged
+    // as usual; the point is that the interpreter lanes see every one of these shapes: there the corpus is not
+    // thinned (the per-operation decay of `case` would keep one or two of them) but split between the shards.
+    let mut idx = 0u64;
+    for ln in 0..=3usize {
+        for za in 0..=3usize {
+            for zb in 0..=3usize {
+                for hz in 0..2 {
+                    let mut x = vec![0u64; za];
+                    x.push(u64::MAX);
+                    let mut y = vec![0u64; zb];
+                    y.push(3);
+                    if hz == 1 {
+                        x.push(0);
+                        y.push(0);
+                    }
+                    let args = vec![au(&vec![u64::MAX; ln]), au(&x), au(&y)];
+                    idx += 1;
+                    if !m.is_light() {
+                        m.case("addmul", 64 * ln, args);
+                    } else if m.light_owns(idx, "addmul") {
+                        m.case_always("addmul", 64 * ln, args);
+                    }
+                }
+            }
+        }
+    }
     // ---- equal-length kernels, lengths 0..=12
     let mut r = m.stream("c15.equal", 0);
     let reps = m.iters(1500);
